@@ -107,6 +107,9 @@ type Node struct {
 	// RawOp, when set, is the operator key written into the JSON form of this node instead of the documented one
 	// ($and/$or, $not, $match...): hostile text in operator position. Such a tree exists only as JSON (ParseJSON).
 	RawOp *BStr `json:"rawop,omitempty"`
+	// BaseKey, on a leaf whose Key is hostile text built around a key the listing accepts (date -> "date or 1=1"),
+	// is that accepted key: the harmless twin of the leaf uses it.
+	BaseKey BStr `json:"basekey,omitempty"`
 }
 
 // normalize turns a raw operator key that is a documented one into the documented node, so that the twin (the same
@@ -312,7 +315,7 @@ func harmlessVal(v *Val) *Val {
 	return &c
 }
 
-func twin(listing string, n Node) Node {
+func twinModel(listing string, n Node) Node {
 	if n.T == "leaf" {
 		out := Node{T: "leaf", Key: n.Key, Op: n.Op}
 		switch keyClass(listing, string(n.Key)) {
@@ -330,6 +333,24 @@ func twin(listing string, n Node) Node {
 			out.Val = harmlessVal(n.Val)
 		}
 		return out
+	}
+	out := Node{T: n.T}
+	for _, it := range n.Items {
+		out.Items = append(out.Items, twinModel(listing, it))
+	}
+	return out
+}
+
+// twin is the harmless twin used by the oracle: as twinModel (which mirrors `harmless` of the Coq model), except
+// that a leaf whose hostile key the listing does not know as such takes the accepted key it was derived from.
+func twin(listing string, n Node) Node {
+	if n.T == "leaf" {
+		if n.BaseKey != "" && keyClass(listing, string(n.Key)) == "other" {
+			b := n
+			b.Key, b.BaseKey = n.BaseKey, ""
+			return twinModel(listing, b)
+		}
+		return twinModel(listing, n)
 	}
 	out := Node{T: n.T}
 	for _, it := range n.Items {
@@ -974,7 +995,7 @@ func (h *harness) httpCalls(in Input, tw Node) []httpCall {
 	logsOK := true
 	if in.Listing == "logs" { // an unknown key makes the log listing panic (recovered by chi, printed on stderr): keep to `date`
 		in.Tree.leaves(func(n *Node) {
-			if n.Key != "date" {
+			if n.Key != "date" && n.BaseKey == "" {
 				logsOK = false
 			}
 		})
@@ -1357,7 +1378,11 @@ func (h *harness) one(r *vx.Run, in Input, emit bool) {
 			b, _ := json.Marshal(twLeaves[li])
 			li++
 			if !bytes.Equal(a, b) {
-				classes[keyClass(in.Listing, string(n.Key))] = true
+				if n.BaseKey != "" && n.BaseKey != n.Key && keyClass(in.Listing, string(n.Key)) == "other" {
+					classes["key"] = true
+				} else {
+					classes[keyClass(in.Listing, string(n.Key))] = true
+				}
 			}
 		})
 		if cur.Tree.hasRawOp() {
@@ -1428,7 +1453,7 @@ func (h *harness) one(r *vx.Run, in Input, emit bool) {
 		}
 		// Coq case
 		key, _ := json.Marshal(in)
-		r.Case(h.coqCase(r, in, tw, count, variant, cc, emit), map[string]any{"input": in, "variant": variant}, string(key)+variant, nontrivial)
+		r.Case(h.coqCase(r, in, twinModel(in.Listing, in.Tree), count, variant, cc, emit), map[string]any{"input": in, "variant": variant}, string(key)+variant, nontrivial)
 	}
 	// through the HTTP handlers
 	for _, c := range h.httpCalls(in, tw) {
@@ -1648,6 +1673,38 @@ func opTree(listing, op string, pos, width int) Node {
 	return Node{T: "and", Items: []Node{{T: "not", Items: []Node{kids[0]}, RawOp: &o}, kids[1]}}
 }
 
+// the keys each listing accepts, with a valid value (read from the query contexts of ledgerstore)
+var acceptedKeys = map[string][][2]string{
+	"accounts":     {{"address", "users:"}, {"metadata[k1]", "v"}, {"balance[USD]", "5"}, {"balance", "5"}},
+	"transactions": {{"reference", "ref1"}, {"timestamp", "2023-01-01T00:00:00Z"}, {"account", "users:001"}, {"source", "world"}, {"destination", "bank"}, {"metadata[k1]", "v"}},
+	"balances":     {{"address", "users:"}, {"metadata[k1]", "v"}},
+	"logs":         {{"date", "2023-01-01T00:00:00Z"}},
+}
+
+var tablePrefix = map[string][]string{
+	"accounts": {"accounts.", "accounts_metadata."}, "transactions": {"transactions.", "transactions_metadata."},
+	"balances": {"moves.", "accounts."}, "logs": {"logs.", "\"logs\"."},
+}
+
+// keys derived from the accepted key v: hostile text around it, other letter case, blanks, qualified
+func keyForms(listing, v, hs string, k int) []string {
+	switch k % 3 {
+	case 0:
+		return []string{v + hs}
+	case 1:
+		return []string{hs + v}
+	}
+	return []string{v + " " + hs + " " + v}
+}
+
+func keyVariants(listing, v string) []string {
+	out := []string{strings.ToUpper(v), strings.ToUpper(v[:1]) + v[1:], " " + v, v + " ", "\t" + v + "\n", v + " is not null or " + v, v + " = " + v + " or " + v, v + "::text", v + ")", "(" + v, v + "--", v + "/**/"}
+	for _, p := range tablePrefix[listing] {
+		out = append(out, p+v)
+	}
+	return out
+}
+
 // cursorVariants: the paging fields a forged cursor can carry, for the listing's pagination kind
 func cursorVariants(listing string) []CursorSpec {
 	var out []CursorSpec
@@ -1782,6 +1839,46 @@ func main() {
 				h.one(r, withCursor(in, oi+pos), false)
 				nop++
 			}
+		}
+	}
+	// hostile text in KEY position of comparison nodes: around every key a listing accepts, all operators
+	allOps := []string{"$match", "$lt", "$lte", "$gt", "$gte"}
+	nkey := 0
+	keyLeaf := func(l, key, base, val, op string) {
+		in := Input{Listing: l, PIT: []string{"nil", "set"}[nkey%2], Tree: Node{T: "leaf", Key: BStr(key), BaseKey: BStr(base), Op: op, Val: &Val{K: "str", S: BStr(val)}}}
+		if nkey%3 == 1 { // nested
+			in.Tree = Node{T: "and", Items: []Node{in.Tree, {T: "not", Items: []Node{in.Tree}}}}
+		}
+		h.one(r, in, false)
+		if r.Thorough() || nkey%2 == 0 {
+			h.one(r, withCursor(in, nkey), false)
+		}
+		nkey++
+	}
+	for _, l := range listings {
+		for ki, kv := range acceptedKeys[l] {
+			for _, kk := range keyVariants(l, kv[0]) {
+				for _, op := range allOps {
+					keyLeaf(l, kk, kv[0], kv[1], op)
+				}
+			}
+			for hi, hs := range hostile {
+				if hs == "" {
+					continue
+				}
+				forms := []int{hi + ki}
+				if r.Thorough() {
+					forms = []int{0, 1, 2}
+				}
+				for _, f := range forms {
+					for _, kk := range keyForms(l, kv[0], hs, f) {
+						keyLeaf(l, kk, kv[0], kv[1], allOps[(hi+f)%5])
+					}
+				}
+			}
+		}
+		for hi, hs := range hostile { // pure hostile keys
+			keyLeaf(l, hs, "", acceptedKeys[l][0][1], allOps[hi%5])
 		}
 	}
 	// random trees
